@@ -198,5 +198,6 @@ def run(rep, idx, tier):
     glue.shadow_hash(rep, idx, "C04.7")
     # C04.10 the shadow is not given up on while a doubling can still separate the registers (a legal layout is not refused)
     glue.shadow_give_up_bound(rep, idx, "C04.10")
+    glue.shadow_chunk_keys(rep, idx, "C04.11")
     # C04.8 a chunk is one bus word wide
     glue.chunk_width(rep, "C04.8", idx, c, r.SH)
